@@ -75,6 +75,7 @@ func TestC08FixFrame(t *testing.T) {
 		return n
 	}
 	evid.Check(t, rec, evid.N(25000, 100000), func(t *rapid.T) {
+		readBufSize = 512
 		dIdx := rapid.SampledFrom([]int{0, 0, 1, 1, 2, 3, 3}).Draw(t, "dialect")
 		di := dpool[dIdx]
 		keyd := rapid.Bool().Draw(t, "outkey")
